@@ -127,6 +127,10 @@ fn judge(rep: &mut Report, clause: &str, op: &str, shape: &str, case: serde_json
     }
 }
 
+pub fn model_fmt_local(l: i128) -> String {
+    fmt_local(l)
+}
+
 fn fmt_local(l: i128) -> String {
     let d = l.div_euclid(NS_PER_DAY) as i64;
     let (y, m, dd) = civil_from_days(d);
